@@ -4,6 +4,8 @@ spec/Builtins.tla: reference semantics (guarded branches per call shape) of ~110
 Python value model (exact types, plain and overriding subclasses, None, unhashable keys, str kinds
 1/2/4, indices outside Py_ssize_t).  TLC: one state per (shape, arguments); invariants Functional
 (exactly one branch applies), WellFormed, Laws (declarative laws between the operators).
+Exceptions that carry data of the call (KeyError(key) of failing lookups) publish their arguments; key pools contain the
+classes PyErr_SetObject treats differently (None, tuples, exception instances); KeyLaw ties them to the reference.
 Binding B1: every published case is executed on compiled code in all variants of the shape whose
 declared parameter types admit the arguments (untyped, builtin-typed receiver, C-typed arguments,
 literal arguments), and on the same source run by CPython (P).  S != P -> spec drift; C != S -> verdict.
